@@ -44,6 +44,7 @@ class Interp:
         self.env: dict[str, Any] = {"__builtins__": SAFE, **env}
         self.steps = 0
         self.max_steps = max_steps
+        self.yields: list[Any] = []
 
     def ev(self, e: ast.AST) -> Any:
         try:
@@ -67,11 +68,14 @@ class Interp:
             vals.update(kwargs)
             env.update(vals)
             sub = Interp(env, outer.max_steps)
+            is_gen = any(isinstance(x, (ast.Yield, ast.YieldFrom)) for st in fd.body for x in ast.walk(st))
             try:
                 sub.run(fd.body)
             except _Return as r:
-                return r.value
-            return None
+                if not is_gen:
+                    return r.value
+            # a generator function is evaluated eagerly (finite stand-in inputs): its yields in order
+            return iter(sub.yields) if is_gen else None
         return fn
 
     def _bind(self, target: ast.AST, value: Any) -> None:
@@ -121,6 +125,10 @@ class Interp:
                         continue
                     except _Break:
                         break
+            elif isinstance(s, ast.Expr) and isinstance(s.value, ast.Yield):
+                self.yields.append(self.ev(s.value.value) if s.value.value is not None else None)
+            elif isinstance(s, ast.Expr) and isinstance(s.value, ast.YieldFrom):
+                self.yields.extend(list(self.ev(s.value.value)))
             elif isinstance(s, ast.Expr):
                 self.ev(s.value)
             elif isinstance(s, ast.Assign) and len(s.targets) == 1 and isinstance(s.targets[0], ast.Name):
